@@ -1,6 +1,7 @@
 package main
 
 import (
+	"math/big"
 	"fmt"
 	"go/constant"
 	"go/token"
@@ -75,6 +76,7 @@ type Verifier struct {
 	firstLockSnap *State
 	curCells  *frameCells
 	topCells  *frameCells
+	topClo    *Closure
 	goHook    func(s *State, t *ssa.Go)
 	siteSeen  map[string]int
 	srcCache  map[string][]string
@@ -1102,41 +1104,94 @@ func (v *Verifier) execBinOp(s *State, t *ssa.BinOp) {
 	}
 }
 
-// bitop models bitwise operators; exact for constant masks of the form 2^k-1 and non-negative operands, otherwise uninterpreted with range facts.
+// bitop models bitwise operators on non-negative operands exactly when one operand is a constant (bit extraction by
+// div/mod), and x|y exactly when x is a multiple of 2^32 and y < 2^32; otherwise uninterpreted with range facts.
 func (v *Verifier) bitop(op token.Token, a, b *Term, rt types.Type) *Term {
-	if op == token.AND {
-		if a.isInt() {
-			a, b = b, a
+	return bitopTerm(op, a, b, rt)
+}
+
+// andConst: x & c for a non-negative constant c and non-negative x.
+func andConst(x *Term, c *big.Int) *Term {
+	if c.Sign() == 0 {
+		return Int(0)
+	}
+	// contiguous low mask 2^k-1
+	m := new(big.Int).Add(c, bigOne)
+	if new(big.Int).And(m, c).Sign() == 0 {
+		return EMod(x, IntBig(m))
+	}
+	// general mask: sum over maximal runs of set bits [lo,hi): ((x div 2^lo) mod 2^(hi-lo)) * 2^lo
+	res := Int(0)
+	n := c.BitLen()
+	for lo := 0; lo < n; {
+		if c.Bit(lo) == 0 {
+			lo++
+			continue
 		}
-		if b.isInt() && b.ival.Sign() >= 0 {
-			// mask 2^k - 1
-			m := new(bigInt).Add(b.ival, bigOne)
-			if m.BitLen() > 0 && new(bigInt).And(m, b.ival).Sign() == 0 {
-				min, _ := intRange(rt)
-				if min != nil && min.Sign() == 0 {
-					return EMod(a, IntBig(m))
-				}
-				return EMod(a, IntBig(m)) // two's complement: low bits == a mod 2^k also for negatives
+		hi := lo
+		for hi < n && c.Bit(hi) == 1 {
+			hi++
+		}
+		part := EMod(EDiv(x, Pow2(uint(lo))), Pow2(uint(hi-lo)))
+		res = Add(res, Mul(part, Pow2(uint(lo))))
+		lo = hi
+	}
+	return res
+}
+
+func bitopTerm(op token.Token, a, b *Term, rt types.Type) *Term {
+	min, _ := intRange(rt)
+	unsigned := min == nil || min.Sign() == 0
+	if a.isInt() && !b.isInt() && op != token.AND_NOT {
+		a, b = b, a
+	}
+	if b.isInt() && b.ival.Sign() >= 0 && (unsigned || op == token.AND) {
+		if a.isInt() && a.ival.Sign() >= 0 {
+			switch op {
+			case token.AND:
+				return IntBig(new(big.Int).And(a.ival, b.ival))
+			case token.OR:
+				return IntBig(new(big.Int).Or(a.ival, b.ival))
+			case token.XOR:
+				return IntBig(new(big.Int).Xor(a.ival, b.ival))
+			case token.AND_NOT:
+				return IntBig(new(big.Int).AndNot(a.ival, b.ival))
+			}
+		}
+		if unsigned {
+			and := andConst(a, b.ival)
+			switch op {
+			case token.AND:
+				return and
+			case token.OR:
+				return Sub(Add(a, b), and)
+			case token.XOR:
+				return Sub(Add(a, b), Mul(and, Int(2)))
+			case token.AND_NOT:
+				return Sub(a, and)
+			}
+		} else if op == token.AND {
+			// two's complement: the low bits of a negative number are those of its residue
+			m := new(big.Int).Add(b.ival, bigOne)
+			if new(big.Int).And(m, b.ival).Sign() == 0 {
+				return EMod(a, IntBig(m))
 			}
 		}
 	}
 	name := map[token.Token]string{token.AND: "bvand", token.OR: "bvor", token.XOR: "bvxor", token.AND_NOT: "bvandnot"}[op]
 	r := App(name, SInt, a, b)
-	addFact(r, inRange(r, rt))
-	if op == token.AND {
-		min, _ := intRange(rt)
-		if min != nil && min.Sign() == 0 {
-			addFact(r, And(Le(r, a), Le(r, b)))
-		}
-		if b.isInt() && b.ival.Sign() >= 0 {
-			addFact(r, And(Le(Int(0), r), Le(r, b)))
-		}
+	if rt != nil {
+		addFact(r, inRange(r, rt))
 	}
-	if op == token.OR {
-		min, _ := intRange(rt)
-		if min != nil && min.Sign() == 0 {
-			addFact(r, And(Ge(r, a), Ge(r, b)))
-		}
+	if op == token.AND && unsigned {
+		addFact(r, And(Le(r, a), Le(r, b)))
+	}
+	if op == token.OR && unsigned {
+		addFact(r, And(Ge(r, a), Ge(r, b)))
+		// a is a multiple of 2^32 and b < 2^32 (or the other way round): a|b == a+b
+		p32 := Pow2(32)
+		addFact(r, Implies(And(Eq(EMod(a, p32), Int(0)), Le(Int(0), b), Lt(b, p32), Le(Int(0), a)), Eq(r, Add(a, b))))
+		addFact(r, Implies(And(Eq(EMod(b, p32), Int(0)), Le(Int(0), a), Lt(a, p32), Le(Int(0), b)), Eq(r, Add(a, b))))
 	}
 	return r
 }
@@ -1501,10 +1556,8 @@ func (v *Verifier) siteAssertsBefore(fn *ssa.Function, ins ssa.Instruction) []*S
 		if c := v.contracts.forFunc(fn); c != nil {
 			for _, sa := range c.SiteAsserts {
 				placed := false
+				doneLines := map[int]bool{}
 				for _, b := range fn.Blocks {
-					if placed {
-						break
-					}
 					for i, in := range b.Instrs {
 						if _, isDbg := in.(*ssa.DebugRef); isDbg || !in.Pos().IsValid() {
 							continue
@@ -1513,10 +1566,14 @@ func (v *Verifier) siteAssertsBefore(fn *ssa.Function, ins ssa.Instruction) []*S
 						if !strings.Contains(txt, sa.Match) {
 							continue
 						}
+						if doneLines[v.fset.Position(in.Pos()).Line] {
+							continue
+						}
+						doneLines[v.fset.Position(in.Pos()).Line] = true
 						if !sa.After {
 							m[in] = append(m[in], sa)
 							placed = true
-							break
+							continue
 						}
 						// last instruction of this line in the block
 						line := v.fset.Position(in.Pos()).Line
@@ -1536,7 +1593,6 @@ func (v *Verifier) siteAssertsBefore(fn *ssa.Function, ins ssa.Instruction) []*S
 							m[b.Instrs[len(b.Instrs)-1]] = append(m[b.Instrs[len(b.Instrs)-1]], sa)
 						}
 						placed = true
-						break
 					}
 				}
 				if !placed {
